@@ -40,6 +40,22 @@ pub fn round_price_down(p: f64, tick_size: f64) -> Price {
     p as Price
 }
 
+/// Move a price down onto the tick grid
+///
+/// A price that was clamped to the top of the price
+/// range is not necessarily a multiple of the tick-size
+/// and would be rejected by the order book
+///
+/// # Arguments
+///
+/// - `p` - Price
+/// - `tick_size` - Tick size as a float
+///
+fn snap_to_tick(p: Price, tick_size: f64) -> Price {
+    let tick = (tick_size as Price).max(1);
+    p - p % tick
+}
+
 /// Filter active orders and randomly cancel them
 ///
 /// Filter a vec of [OrderId] for those that are active and
@@ -137,6 +153,7 @@ pub fn place_sell_limit_order<R: RngCore, D: Distribution<f64>>(
     let dist = price_dist.sample(rng).abs();
     let price = mid_price + dist;
     let price = round_price_up(price, tick_size);
+    let price = snap_to_tick(price, tick_size);
     env.place_order(Side::Ask, trade_vol, trader_id, Some(price))
 }
 
@@ -253,6 +270,7 @@ pub fn place_sell_limit_order_market<
     let dist = price_dist.sample(rng).abs();
     let price = mid_price + dist;
     let price = round_price_up(price, tick_size);
+    let price = snap_to_tick(price, tick_size);
     env.place_order(asset, Side::Ask, trade_vol, trader_id, Some(price))
 }
 
